@@ -109,3 +109,31 @@ func vTextID(s string) int {
 	return h
 }
 func vTextCUU(s string) int { return 0 }
+
+// vMarkText: a row of the given display width made of the letter for digit d (a=1, b=2, ...), so that the order
+// of marked pieces in a longer text can be read back (vTextSeq: base-16 digits in order of appearance).
+func vMarkText(w, nl, d int) string {
+	out := ""
+	for i := 0; i < w; i++ {
+		out += string(rune('a' + d - 1))
+	}
+	for i := 0; i < nl; i++ {
+		out += "\n"
+	}
+	return out
+}
+func vTextSeq(s string) int {
+	seq := 0
+	prev := rune(0)
+	for _, r := range s {
+		if r >= 'a' && r <= 'o' {
+			if r != prev {
+				seq = seq*16 + int(r-'a'+1)
+			}
+			prev = r
+		} else {
+			prev = 0
+		}
+	}
+	return seq
+}
